@@ -125,12 +125,18 @@ func c12Model(r *xrand.Rand, maxTypes, maxDepth int) (*gen.Model, string) {
 				ok = append(ok, b)
 			}
 			nested := &gen.SNode{Kind: "object", AllOf: names(ok), Props: []*gen.SProp{prop(fmt.Sprintf("t%dn", i))}}
+			if len(ok) > 0 && r.Chance(1, 3) {
+				nested.Props = nil // a property value that only inherits: { // {allOf: …} }
+			}
 			uid++
 			sc.Props = append(sc.Props, &gen.SProp{Key: fmt.Sprintf("t%dnested%d", i, uid), Node: nested})
 		}
 		if r.Chance(1, 4) && i > 0 { // an array whose item is an object with its own allOf
 			nb := pickBases(i, false)
 			item := &gen.SNode{Kind: "object", AllOf: names(nb), Props: []*gen.SProp{prop(fmt.Sprintf("t%da", i))}}
+			if len(nb) > 0 && r.Chance(1, 3) {
+				item.Props = nil // an array item that only inherits
+			}
 			uid++
 			sc.Props = append(sc.Props, &gen.SProp{Key: fmt.Sprintf("t%dlist%d", i, uid), Node: &gen.SNode{Kind: "array", Items: []*gen.SNode{item}}})
 		}
